@@ -467,9 +467,11 @@ func (w *Proxy) checkC17Retry(r *peers.ReqRec) {
 	// attempts in the order MOSN made them (arrival order may differ: latency per connection)
 	ups := append([]*peers.UpRec(nil), r.Upstream...)
 	sort.SliceStable(ups, func(i, j int) bool { return ups[i].MosnAt < ups[j].MosnAt })
-	budget := 3
-	if p.NumRetries > budget {
-		budget = p.NumRetries
+	// the configured budget; num_retries 0 cannot be told from "not configured" in the route
+	// configuration (omitempty), for which MOSN's default of 3 applies
+	budget := p.NumRetries
+	if budget == 0 {
+		budget = 3
 	}
 	if len(r.Upstream) > 1+budget {
 		s.Violate("C17", "retry_budget_exceeded", "req#%d reached upstreams %d times, budget 1+%d (num_retries=%d)", r.Idx, len(r.Upstream), budget, p.NumRetries)
